@@ -147,6 +147,29 @@ func genInt(r *Rand, lo, hi int64) int64 {
 // representation.
 func genVal(r *Rand, oid uint32) Val {
 	fam := oidFamily(oid)
+	if (fam == "int4" || fam == "int8" || fam == "uuid") && r.Chance(1, 12) {
+		// the value handed over as a Go string in its text form: fine for the text
+		// format, not encodable in the binary format
+		base := genValRepr(r, oid, fam)
+		enc, err := pgwire.Encode(oid, 0, base.Canon(oid))
+		if err == nil {
+			return Val{G: "strtext", S: string(enc)}
+		}
+	}
+	v := genValRepr(r, oid, fam)
+	if r.Large && (fam == "text" || fam == "bytes") && r.Chance(1, 40) {
+		// a value larger than the 4 KiB granule of the output frame
+		n := r.PickInt(4090, 4096, 5000, 9000, 70000)
+		if fam == "text" {
+			v.S = r.Ident(n)
+		} else {
+			v.B = r.Bytes(n)
+		}
+	}
+	return v
+}
+
+func genValRepr(r *Rand, oid uint32, fam string) Val {
 	kinds := goKindsFor[fam]
 	g := kinds[r.Intn(len(kinds))]
 	v := Val{G: g}
@@ -279,12 +302,19 @@ func intp(v int) *int       { return &v }
 func CheckEncodableTable() error {
 	m := pgtype.NewMap()
 	r := NewRand(12345)
+	r.Large = true
 	for _, oid := range richOIDs {
 		for i := 0; i < 200; i++ {
 			vals := []Val{genVal(r, oid), genNull(r, oid)}
 			for _, v := range vals {
 				for _, f := range []int16{0, 1} {
 					b, err := m.Encode(oid, f, v.Go(), []byte{})
+					if v.G == "strtext" && f == 1 {
+						if err == nil {
+							return fmt.Errorf("pgtype encodes the Go string %q for oid %d in binary format (classified as unencodable)", v.S, oid)
+						}
+						continue
+					}
 					if err != nil {
 						return fmt.Errorf("pgtype rejects oid %d fmt %d value %s: %v", oid, f, v, err)
 					}
